@@ -31,6 +31,10 @@ class InjectedTargetError2(Exception):
         self.detail = detail
 
 
+class RunTimeout(BaseException):
+    """raised by the per-run watchdog (runpanel._work): the run did not finish within the wall-clock limit"""
+
+
 class NonProgress(Exception):
     """Raised by the probe when the model-proven bound on consecutive
     non-progress loop iterations is exceeded (turns a hang into a verdict)."""
@@ -53,6 +57,7 @@ class Recorder:
         self.np_count = 0
         self.np_slack = np_slack
         self.max_loop = max_loop
+        self.last_eval_u = None
         self.bads = None
         self.fit_idx = 0
         self.in_es = 0
@@ -157,6 +162,7 @@ class Recorder:
                     raise
                 finally:
                     rec.cur_eval = None
+                    rec.last_eval_u = ce["u"]
                     rec.evals_since_loop_end += 1
                     rec.emit("Eval", site=ce["site"], u=ce["u"], rec=ce["rec"],
                              tcalls=ce["tcalls"], outcome=outcome,
@@ -469,7 +475,25 @@ class Recorder:
             finally:
                 self.stack.pop()
             try:
-                res = bads.optimize()
+                # watchdog: optimize() must terminate (C03); the slowest legitimate run of any panel takes
+                # ~20 s under load, the limit is 600 s (VERIF_RUN_LIMIT)
+                import signal
+                limit = float(os.environ.get("VERIF_RUN_LIMIT", "600"))
+
+                def _alarm(signum, frame):
+                    raise RunTimeout("optimize() still running after %.0f s" % limit)
+                armed = False
+                try:
+                    signal.signal(signal.SIGALRM, _alarm)
+                    signal.setitimer(signal.ITIMER_REAL, limit)
+                    armed = True
+                except (ValueError, OSError):
+                    pass
+                try:
+                    res = bads.optimize()
+                finally:
+                    if armed:
+                        signal.setitimer(signal.ITIMER_REAL, 0)
                 self._emit_result(bads, res)
             except BaseException as e:
                 tb = traceback.extract_tb(e.__traceback__)
